@@ -1,8 +1,154 @@
-/- line-protocol handlers for C19 (stub: not built yet) -/
+/- line-protocol handlers for C19 (quantum codes: encoders, stabilizers, Knill–Laflamme, error sets) -/
 import Driver.Loop
+import NumqiModel.Generated.QecCircuits
 
 namespace Numqi.Driver.C19
+open Numqi Numqi.Qec
 
-def handle (_args : List String) : String := "bad-op"
+def symChar (s : Nat) : Char := "IXYZ".toList.getD s '?'
+def symsStr (l : List Nat) : String := String.ofList (l.map symChar)
+
+def parseSyms? (s : String) : Option (List Nat) :=
+  s.toList.mapM fun c => match c with
+    | 'I' => some 0 | 'X' => some 1 | 'Y' => some 2 | 'Z' => some 3 | _ => none
+
+/-- `h,0` / `cx,1,2` / `unknown` -/
+def parseGate? (s : String) : Option Gate :=
+  match s.splitOn "," with
+  | ["h", q] => q.toNat?.map .h
+  | ["x", q] => q.toNat?.map .x
+  | ["y", q] => q.toNat?.map .y
+  | ["z", q] => q.toNat?.map .z
+  | ["s", q] => q.toNat?.map .s
+  | ["cx", c, t] => do pure (.cx (← c.toNat?) (← t.toNat?))
+  | ["cy", c, t] => do pure (.cy (← c.toNat?) (← t.toNat?))
+  | ["cz", c, t] => do pure (.cz (← c.toNat?) (← t.toNat?))
+  | ["unknown"] => some .unknown
+  | _ => none
+
+def parseGates? (s : String) : Option (List Gate) :=
+  if s = "-" then some [] else (s.splitOn ";").mapM parseGate?
+
+def findCode (name : String) : Option Code := (Generated.allCodes.find? fun nc => nc.1 == name).map (·.2)
+
+/-- operator as `e:SYMS` with the scalar `i^e` in front of the tensor product of Pauli matrices -/
+def mpStr (n : Nat) (p : MP) : String := s!"{p.strPhase n}:{symsStr (p.syms n)}"
+
+def ampsStr (a : Array GInt) : String := ";".intercalate (a.toList.map GInt.toStr)
+
+def sparseStr (n : Nat) (e : List (Nat × Nat)) : String := symsStr (sparseToSyms n e)
+
+def allOk (n : Nat) (gs : List Gate) : Bool := gs.all (gateOk n)
+
+/-- classification of one error against the generators: `a` anticommutes with one of them,
+`0..3` equals `i^e ·` (a product of generators), `f` neither -/
+def klClass (n : Nat) (gs sp : List MP) (p : MP) : Char :=
+  if gs.any (fun g => MP.acomm g p) then 'a' else
+  match sp.find? (fun s => s.x == p.x && s.z == p.z) with
+  | some s => "0123".toList.getD ((p.k + 4 - s.k % 4) % 4) '?'
+  | none => let _ := n; 'f'
+
+def handle (args : List String) : String :=
+  match args with
+  | ["codes"] => " ".intercalate (Generated.allCodes.map fun nc => s!"{nc.1}:{nc.2.n}:{nc.2.K}:{nc.2.d}")
+  | ["cw", name, a] => Id.run do
+      let some c := findCode name | return "bad-op"
+      let some a := a.toNat? | return "bad-op"
+      if a ≥ c.K || !allOk c.n c.encode then return "bad-op"
+      let v := codewordTab c a
+      return s!"{countH c.encode} " ++ ampsStr (ampsOf c.n (ofArray v))
+  | ["gens", name] => Id.run do
+      let some c := findCode name | return "bad-op"
+      match gens c, zbars c, xbars c with
+      | some gs, some zs, some xs =>
+          return " ".intercalate (gs.map (mpStr c.n)) ++ " | " ++ " ".intercalate (zs.map (mpStr c.n)) ++ " | " ++ " ".intercalate (xs.map (mpStr c.n))
+      | _, _, _ => return "none"
+  | ["fix", name] => Id.run do
+      -- does every generator / listed string / stabilizer circuit fix every model code word?
+      let some c := findCode name | return "bad-op"
+      if !allOk c.n c.encode then return "bad-op"
+      let some gs := gens c | return "none"
+      let cw := (List.range c.K).map (codewordTab c)
+      let b2s := fun (b : Bool) => if b then "1" else "0"
+      let g := gs.map fun g => b2s (cw.all fun v => pauliTab c.n g v == v)
+      let l := c.listed.map fun l => b2s (symsOk c.n l && cw.all fun v => pauliTab c.n (MP.ofSyms l) v == v)
+      let s := c.stabCircs.map fun gl => b2s (allOk c.n gl && cw.all fun v => runTab c.n gl v == v)
+      return "".intercalate g ++ " " ++ "".intercalate l ++ " " ++ "".intercalate s
+  | ["chk", name] => Id.run do
+      -- check_stabilizer: ⟨v_a| circ_j v_a⟩ for every code word a and stabilizer circuit j, times 2^h
+      let some c := findCode name | return "bad-op"
+      if !allOk c.n c.encode || !(c.stabCircs.all (allOk c.n)) then return "bad-op"
+      let cw := (List.range c.K).map (codewordTab c)
+      let rows := cw.map fun v => ",".intercalate (c.stabCircs.map fun gl => (innerA v (runTab c.n gl v)).toStr.replace "," "/")
+      return s!"{countH c.encode} " ++ ";".intercalate rows
+  | ["ortho", name] => Id.run do
+      -- Gram matrix of the model code words (upper triangle, row-major), times 2^h
+      let some c := findCode name | return "bad-op"
+      if !allOk c.n c.encode then return "bad-op"
+      let cw := (List.range c.K).map (codewordTab c)
+      let idx := List.range c.K
+      let ent := idx.flatMap fun a => (idx.filter (· ≥ a)).map fun b => (innerA (cw.getD a #[]) (cw.getD b #[])).toStr.replace "," "/"
+      return s!"{countH c.encode} " ++ ";".intercalate ent
+  | ["kl", name] => Id.run do
+      let some c := findCode name | return "bad-op"
+      let some gs := gens c | return "none"
+      let sp := span gs
+      return String.ofList ((errorList c.n c.d).map fun e => klClass c.n gs sp (MP.ofSparse e))
+  | ["checks", name] => Id.run do
+      let some c := findCode name | return "bad-op"
+      let b2s := fun (b : Bool) => if b then "1" else "0"
+      return b2s (klCheck c) ++ b2s (listedCheck c) ++ b2s (stabCircImplCheck c)
+  | ["scirc", name] => Id.run do
+      let some c := findCode name | return "bad-op"
+      return " ".intercalate (c.stabCircs.map fun gl => match circPauli c.n gl with
+        | some p => mpStr c.n p
+        | none => "none")
+  | ["listed", name] => Id.run do
+      let some c := findCode name | return "bad-op"
+      return " ".intercalate (c.listed.map symsStr)
+  | ["wenum", name] => Id.run do
+      let some c := findCode name | return "bad-op"
+      if !allOk c.n c.encode then return "bad-op"
+      let r := weightEnum c
+      return s!"{countH c.encode} " ++ ";".intercalate (r.map fun ab => s!"{ab.1},{ab.2}")
+  | ["errlist", n, d] => Id.run do
+      let some n := n.toNat? | return "bad-op"
+      let some d := d.toNat? | return "bad-op"
+      if d ≤ 1 then return "error:assert"
+      return ";".intercalate ((errorList n d).map (sparseStr n))
+  | ["asym", n, d, p, q] => Id.run do
+      let some n := n.toNat? | return "bad-op"
+      let some d := d.toNat? | return "bad-op"
+      let some p := p.toNat? | return "bad-op"
+      let some q := q.toNat? | return "bad-op"
+      if q = 0 then return "bad-op"
+      if p = 0 then return "error:assert"
+      return ";".intercalate ((asymErrorSet n d p q).map (sparseStr n))
+  | ["run", n, idx, gates] => Id.run do
+      -- the state-vector model on an arbitrary gate list, from the basis state with flat index idx
+      let some n := n.toNat? | return "bad-op"
+      let some idx := idx.toNat? | return "bad-op"
+      let some gs := parseGates? gates | return "bad-op"
+      if n > 12 || idx ≥ 2 ^ n || !allOk n gs then return "bad-op"
+      let v := runTab n gs (tabulate n (basisVec (posOfIdx n idx)))
+      return s!"{countH gs} " ++ ampsStr (ampsOf n (ofArray v))
+  | ["conj", n, syms, e, gates] => Id.run do
+      -- tableau: U (i^e · σ_syms) U† for the circuit U
+      let some n := n.toNat? | return "bad-op"
+      let some l := parseSyms? syms | return "bad-op"
+      let some e := e.toNat? | return "bad-op"
+      let some gs := parseGates? gates | return "bad-op"
+      if l.length ≠ n || e ≥ 4 || !allOk n gs || n > 32 then return "bad-op"
+      let p0 := MP.ofSyms l
+      match conjCirc ⟨(p0.k + e) % 4, p0.x, p0.z⟩ gs with
+      | some p => return mpStr n p
+      | none => return "none"
+  | ["pmul", a, b] => Id.run do
+      let some la := parseSyms? a | return "bad-op"
+      let some lb := parseSyms? b | return "bad-op"
+      if la.length ≠ lb.length || la.length > 32 then return "bad-op"
+      let p := MP.mul (MP.ofSyms la) (MP.ofSyms lb)
+      return mpStr la.length p ++ (if MP.acomm (MP.ofSyms la) (MP.ofSyms lb) then " a" else " c")
+  | _ => "bad-op"
 
 end Numqi.Driver.C19
